@@ -19,6 +19,7 @@ classify the outcome.
   //@body-end                                           following lines go before the body's tail expression (or its closing brace)
   //@end
   //@include <unit>                                     paste the verus! body of units/<unit>.vspec here (re-extracted, re-verified)
+  //@include-fragment <unit> <name>                     paste the text between `//@fragment <name>` and `//@end-fragment` of units/<unit>.vspec
 
 What extraction changes is limited to: dropping the item's leading doc comments/attributes (R0), the
 automatic reference-pattern desugarings R1-R3, naming the return value (R7: `-> T` becomes
@@ -156,6 +157,31 @@ def parse_vspec(path):
                     elif started:
                         parts.append((kind, pp))
                 continue
+            if d.startswith('include-fragment '):
+                # paste the plain-text lines of units/<unit>.vspec between `//@fragment <name>` and `//@end-fragment` (no directives inside):
+                # shared DEFINITIONS are taken from the one place they are written, so two units cannot drift apart
+                _, unit_, name_ = d.split()[:3]
+                inc = os.path.join(os.path.dirname(path), unit_ + '.vspec')
+                inside = False
+                got = 0
+                for ln2, raw2 in enumerate(open(inc).read().split('\n'), 1):
+                    t2 = raw2.strip()
+                    if t2 == f'//@fragment {name_}':
+                        inside = True
+                        continue
+                    if t2 == '//@end-fragment' and inside:
+                        inside = False
+                        continue
+                    if inside:
+                        if t2.startswith('//@'):
+                            raise AnchorLost(f'{inc}: directive inside fragment {name_}')
+                        cur_text.append(Line(raw2, ('vspec-include', os.path.basename(inc), ln2)))
+                        got += 1
+                if not got:
+                    raise AnchorLost(f'{inc}: fragment {name_} not found')
+                continue
+            if d in ('end-fragment',) or d.startswith('fragment '):
+                continue        # markers only; the text between them is ordinary text of this unit
             if d.startswith('extract-item '):
                 if cur_text:
                     parts.append(('text', cur_text))
